@@ -10,6 +10,8 @@ any number of waiters, event-loop stalls (`fair = false`); the head-of-line boun
 import GeckoModel.Model.Dispatch
 import GeckoModel.Model.PacketConsumer
 import GeckoModel.Properties.C04
+import GeckoModel.Proofs.Coop
+import GeckoModel.Generated.Skeletons
 
 namespace GeckoModel.C07
 open GeckoModel.Dispatch
@@ -356,5 +358,57 @@ example :
                     (frame [73, 79, 83] [83, 80, 65] [3], [49], 10022)]).1 = [some [1, 2], some [3]] := by decide +kernel
 
 end PC
+
+/-! ### why "a consumer's look at the head, its test and its pop" is ONE step of the model above
+
+`Model/Dispatch.lean` gives every consumer the atomic step "if the head exists and I can handle it: pop".  That is true of the
+code only if no suspension point lies between reading the head and popping it.  The SKELETONS of the three consuming
+coroutines are regenerated from the source on every run (`Generated/Skeletons.lean`); the static analysis of `Model/Coop.lean`
+is proved sound for every trace (`scan_sound`) and `atomic_sections` lifts it to every schedule of the event loop. -/
+namespace Atomic
+open GeckoModel.Coop GeckoModel.Generated.Skeletons
+
+/-- a section opens when the head (or, in the unhandled consumer, the mark) is looked at … -/
+def opens (a : A) : Bool :=
+  (a.kind == .read && a.name == "queue.head") || (a.kind == .brT && a.name == "queue.is_marked")
+
+/-- … and closes with the pop, the mark, or any test that came out false (nothing is done with what was seen) -/
+def closes (a : A) : Bool :=
+  (a.kind == .call && (a.name == "queue.pop" || a.name == "queue.mark")) || a.kind == .brF
+
+abbrev verbConsumer := sk_driver_udp_protocol_handler__GeckoUdpProtocolHandler_consume
+abbrev requestWaiter := sk_driver_udp_protocol_handler__GeckoUdpProtocolHandler_wait_for_response
+abbrev unhandledConsumer := sk_driver_protocol_unhandled__GeckoUnhandledProtocolHandler_consume
+
+/-- the three coroutines that take datagrams out of the receive queue -/
+def consumers : List Sk := [verbConsumer, requestWaiter, unhandledConsumer]
+
+/-- **no consumer can be suspended between looking at the head and popping it** (kernel evaluation of the sound analysis on
+the generated skeletons) -/
+theorem peek_pop_atomic : ∀ sk ∈ consumers, sectionsAtomic opens closes sk = true := by decide +kernel
+
+/-- hence for EVERY trace of each consumer … -/
+theorem peek_pop_atomic_traces (sk : Sk) (h : sk ∈ consumers) (t : List Ev) (o : Out) (hr : Run sk t o) :
+    secOK opens closes false t = true :=
+  sectionsAtomic_sound opens closes sk (peek_pop_atomic sk h) t o hr
+
+/-- … and for EVERY number of consumers, waiters and other tasks and EVERY schedule of the event loop: while one of them is
+between its look at the head and its pop, nobody else runs - the head it pops is the head it tested -/
+theorem peek_pop_atomic_in_every_schedule (task : Nat → Sk) (h : ∀ j, task j ∈ consumers)
+    (locals : Nat → List Ev) (hrun : ∀ j, ∃ o, Run (task j) (locals j) o) (g : List (Nat × Ev)) (hs : Sched none locals g) :
+    GlobalOK opens closes (fun _ => false) g :=
+  coop_atomic opens closes task (fun j => peek_pop_atomic _ (h j)) locals hrun g hs
+
+/-- non-vacuity: each consumer really reads the head and pops, and really has suspension points outside the section -/
+example : (∀ sk ∈ consumers, "queue.pop" ∈ actions .call sk ∧ "queue.head" ∈ actions .read sk ∧ suspensions sk ≥ 2) := by
+  decide +kernel
+
+/-- non-vacuity: the analysis rejects the shape "pop after the handler has been awaited" (pop moved into a `finally`) -/
+example : sectionsAtomic opens closes
+    (.loop (.seq (.ev (.act ⟨.read, "queue.head"⟩))
+      (.seq (.fin (.ev (.aw "self.async_handle")) (.ev (.act ⟨.call, "queue.pop"⟩))) (.ev (.aw "asyncio.sleep"))))) = false := by
+  decide +kernel
+
+end Atomic
 
 end GeckoModel.C07
